@@ -33,9 +33,13 @@ TEMPLATES = {
     "volatile": "{% autoescape x == 1 %}{{ f('<') }}{{ '<' ~ x }}{% endautoescape %}{{ f('>') }}",
     "incl": "{% include 'lib' %}{% import 'lib' as l %}{{ l.lm(2) }}{{ f('e') }}",
     "libae": "{% macro am(v, fl) %}{% autoescape fl %}{{ f('m') }}{{ v }}{% endautoescape %}|{{ v }}{% endmacro %}",
+    # same cached macro module called from templates whose autoescape differs by name (select_autoescape)
+    "maclib": "{% macro em(v) %}<b>{{ v }}</b>{{ f('m') }}{{ v }}{% endmacro %}",
+    "pg.html": "{% import 'maclib' as l %}{{ l.em('<' ~ x) }}|{{ '<' ~ x }}",
+    "ml.txt": "{% import 'maclib' as l %}{{ l.em('<' ~ x) }}|{{ '<' ~ x }}",
     "impae": "{% import 'libae' as l %}{{ l.am('<' ~ x, x == 1) }}{{ '<' }}",
 }
-POOL = ["imp", "fromctx", "loopns", "macro", "child", "volatile", "incl", "impae"]
+POOL = ["imp", "fromctx", "loopns", "macro", "child", "volatile", "incl", "impae", "pg.html", "ml.txt"]
 # small templates (<= 2 gates) for the 3-task harnesses: the interleaving tree of three 5-step tasks has 756756 leaves
 TEMPLATES.update({
     "slib": "{% set v = f('L') %}{% macro sm() %}{{ v }}{{ x }}{% endmacro %}",
@@ -67,7 +71,8 @@ def make_env():
         def dump_bytecode(self, bucket):
             _BC[bucket.key] = bucket.bytecode_to_string()
 
-    env = jinja2.Environment(loader=jinja2.DictLoader(TEMPLATES), enable_async=True, bytecode_cache=MemCache())
+    env = jinja2.Environment(loader=jinja2.DictLoader(TEMPLATES), enable_async=True, bytecode_cache=MemCache(),
+                             autoescape=jinja2.select_autoescape(("html",), default_for_string=False))
     env.globals["f"] = mk_f("G")
     env.globals["x"] = "gx"
     return env
